@@ -14,6 +14,7 @@ vt/model/c22_spec.py and vt/model/c23_spec.py.
 from __future__ import annotations
 
 import asyncio
+import collections.abc as _abc
 import math
 
 # --------------------------------------------------------------- values
@@ -47,6 +48,166 @@ class AIterOnly:
 
     def __aiter__(self):
         return agen(list(self._items))
+
+
+class SizedIter:
+    """A collection with __iter__ and __len__ only (no reversed, no indexing)."""
+
+    def __init__(self, items):
+        self._items = items
+
+    def __iter__(self):
+        return iter(list(self._items))
+
+    def __len__(self):
+        return len(self._items)
+
+
+class RevLenOnly:
+    """Only __reversed__ and __len__: reversible, sized, NOT iterable forwards
+    and not subscriptable."""
+
+    def __init__(self, items):
+        self._items = items
+
+    def __reversed__(self):
+        return iter(list(self._items)[::-1])
+
+    def __len__(self):
+        return len(self._items)
+
+
+class GetItemOnly:
+    """The legacy sequence protocol: only __getitem__ (indexes 0..len-1, no
+    negative indexes, no slices) and __len__.  iter() and reversed() work on it
+    through that protocol."""
+
+    def __init__(self, items):
+        self._items = items
+
+    def __getitem__(self, i):
+        if isinstance(i, bool) or not isinstance(i, int):
+            raise TypeError("indexes must be integers")
+        if not 0 <= i < len(self._items):
+            raise IndexError(i)
+        return self._items[i]
+
+    def __len__(self):
+        return len(self._items)
+
+
+class ListSub(list):
+    """A list subclass (``type(x) is list`` is false)."""
+
+
+class AbcMapping(_abc.Mapping):
+    """A Mapping that is not a dict: __getitem__/__iter__/__len__ + mixins."""
+
+    def __init__(self, d):
+        self._d = d
+
+    def __getitem__(self, k):
+        return self._d[k]
+
+    def __iter__(self):
+        return iter(list(self._d))
+
+    def __len__(self):
+        return len(self._d)
+
+
+# ---- string-like subjects (C23) -------------------------------------------
+class StrSub(str):
+    """A plain str subclass (no __html__)."""
+
+
+class HasHtml:
+    """Implements the __html__ protocol; str() is an unrelated plain text."""
+
+    def __init__(self, html, text):
+        self._html = html
+        self._text = text
+
+    def __html__(self):
+        return self._html
+
+    def __str__(self):
+        return self._text
+
+    def __repr__(self):
+        return f"HasHtml(html={self._html!r}, str={self._text!r})"
+
+
+class HtmlOnly:
+    """Implements only __html__ (str() is the default object repr)."""
+
+    def __init__(self, html):
+        self._html = html
+
+    def __html__(self):
+        return self._html
+
+    def __repr__(self):
+        return f"<HtmlOnly {self._html!r}>"
+
+
+class StrOnly:
+    """An object whose only text form is __str__."""
+
+    def __init__(self, text):
+        self._text = text
+
+    def __str__(self):
+        return self._text
+
+    def __repr__(self):
+        return f"StrOnly({self._text!r})"
+
+
+class LazyStr:
+    """A lazy string (gettext-style proxy): the text is computed on demand and
+    every str operation is forwarded to it; not a str instance, no __html__."""
+
+    def __init__(self, text):
+        self._f = lambda: text
+
+    def __str__(self):
+        return self._f()
+
+    def __repr__(self):
+        return f"LazyStr({self._f()!r})"
+
+    def __getattr__(self, name):
+        if name.startswith("__"):
+            raise AttributeError(name)
+        return getattr(self._f(), name)
+
+    def __len__(self):
+        return len(self._f())
+
+    def __getitem__(self, i):
+        return self._f()[i]
+
+    def __iter__(self):
+        return iter(self._f())
+
+    def __contains__(self, x):
+        return x in self._f()
+
+    def __add__(self, o):
+        return self._f() + o
+
+    def __radd__(self, o):
+        return o + self._f()
+
+    def __mod__(self, o):
+        return self._f() % o
+
+    def __eq__(self, o):
+        return self._f() == o
+
+    def __hash__(self):
+        return hash(self._f())
 
 
 def gen(items):
